@@ -528,7 +528,8 @@ class Driver:
         h = self.node.fm_new(width or c["width"], src, stack_max or c["stack_max"], rec_max or c["rec_max"],
                              out_init or c["out_init"], out_resize or c["out_resize"])
         for k, v in self.inputs.items():
-            self.node.fm_input(h, k, v)
+            if self.node.fm_input(h, k, v):
+                self.rec.fault("read_only_input")
         return h
 
     def canonical(self, h, max_resumes):
@@ -1309,6 +1310,8 @@ ASSUMPTIONS = [
     "programs whose model execution reaches behaviour that is not defined (shift count outside the cell width, "
     "float to integer out of range) are checked for self-consistency and "
     "robustness only",
+    "an input for which the compiled machine answers input_must_be_writable(name) == false is handed over in read-only "
+    "pages (the Python layer requests the buffer with that flag); the others may be written and must be restored",
     "only the C++ ForthMachine32/64 API is exercised; the Python wrapper (src/awkward/forth.py, pybind11) cannot "
     "be built in this sandbox",
     "g++ 12 -O1, glibc; signed overflow is assumed to wrap as it does on this target",
